@@ -192,24 +192,11 @@ func c01Classify(q []c01Stmt) (cmp string, untr []c01Stmt) {
 	return "skip", nil
 }
 
-// c01Hazard: programs the real engine cannot run without crashing the process (nil element
-// dereference in Unwind after count/render/select — C06's subject) are not generated.
-func c01Hazard(q []c01Stmt) bool {
-	nilCur := false
-	for _, s := range q {
-		switch c01Kind(s) {
-		case "count", "render", "select", "aggregate":
-			nilCur = true
-		case "v", "e":
-			nilCur = false
-		case "unwind":
-			if nilCur {
-				return true
-			}
-		}
-	}
-	return false
-}
+// c01Hazard: programs the real engine could not run without crashing the process.  There are none
+// any more: `unwind` after count/render/select dereferenced a nil element until the processors were
+// taught to pass such travelers on (fix 32aaa01); the MODEL follows (`stepUnwind`: no current
+// element, no change), so these programs are generated and compared like all others.
+func c01Hazard(q []c01Stmt) bool { return false }
 
 // ---------- engine plumbing ----------
 
